@@ -17,6 +17,7 @@
 package sync
 
 import (
+	"strings"
 	"errors"
 	"bufio"
 	"encoding/json"
@@ -66,6 +67,7 @@ type vfsEvent struct {
 	B     int       `json:"b"`
 	St    int       `json:"st"`
 	Res   string    `json:"res"`
+	Why   string    `json:"why"`
 }
 
 type vfsStorage struct{ stdsync.Mutex }
@@ -84,10 +86,14 @@ func (vfsBabe) VerifyBlock(*types.Header) error { return nil }
 
 type vfsFinality struct{}
 
-// Justifications are attached only to entries of blocks that were delivered before (see below); they are not
-// verifiable, so a block that is processed with one is refused -- and a block the node already holds is not
-// processed at all ("never twice").
-func (vfsFinality) VerifyBlockJustification(common.Hash, uint, []byte) (uint64, uint64, error) {
+// Two kinds of justification are attached to delivered entries (see below): 0xaa.. on the first delivery of some
+// honest entries -- it verifies, so the importer finalises the block and the competing forks are pruned inside the
+// Process call; 0xbb.. on entries of blocks that were delivered before -- it does not verify, so a block that is
+// processed with it is refused, and a block the node already holds is not processed at all ("never twice").
+func (vfsFinality) VerifyBlockJustification(_ common.Hash, number uint, just []byte) (uint64, uint64, error) {
+	if len(just) > 0 && just[0] == 0xaa {
+		return uint64(number), 0, nil
+	}
 	return 0, 0, errors.New("harness: justification cannot be verified")
 }
 
@@ -105,9 +111,10 @@ func (h vfsHandler) HandleBlockImport(block *types.Block, _ *rtstorage.TrieState
 
 // vfsImporter wraps the strategy's real importer and records every call.
 type vfsImporter struct {
-	inner importer
-	f     *vsfForest
-	emit  func(b, st int, res string)
+	inner     importer
+	f         *vsfForest
+	emit      func(b, st int, res string)
+	finalised func() // reports a move of the finalised head
 }
 
 func (w *vfsImporter) importBlock(bd *types.BlockData, o BlockOrigin) (bool, error) {
@@ -129,6 +136,9 @@ func (w *vfsImporter) importBlock(bd *types.BlockData, o BlockOrigin) (bool, err
 		res = "imported"
 	}
 	w.emit(id, st, res)
+	if w.finalised != nil {
+		w.finalised()
+	}
 	return imported, err
 }
 
@@ -186,9 +196,20 @@ scenarios:
 			BlockState:         bs,
 		}
 		fs := NewFullSyncStrategy(cfg)
+		lastFin := uint(0)
 		fs.blockImporter = &vfsImporter{inner: fs.blockImporter, f: f, emit: func(id, st int, r string) {
 			write(vfsEvent{Ev: "import", Sc: bi, B: id, St: st, Res: r})
 			counts["import-"+r]++
+		}, finalised: func() {
+			h, err := bs.GetHighestFinalisedHeader()
+			if err != nil || h.Number == lastFin {
+				return
+			}
+			lastFin = h.Number
+			if id, ok := f.ByHash[h.Hash()]; ok {
+				write(vfsEvent{Ev: "final", Sc: bi, B: id})
+				counts["finalised"]++
+			}
 		}}
 		write(vfsEvent{Ev: "reset", Sc: bi, Par: sc.Par})
 		redelivered := map[int]bool{} // blocks that appeared in an earlier batch of this scenario
@@ -227,9 +248,14 @@ scenarios:
 					// a block delivered again (another peer answering the same request, an overlapping range) may now carry the
 					// justification the first response lacked
 					if redelivered[e.B] && e.Rl != 1 && e.St == e.B && (e.B+si)%2 == 0 {
+						just := []byte{0xbb, byte(e.B)}
+						bd.Justification = &just
+						counts["entries-with-unverifiable-justification"]++
+					} else if !redelivered[e.B] && e.Rl != 1 && e.St == e.B && (e.B+bi)%4 == 0 {
+						// finality moves while the remaining fragments of this Process call are still waiting
 						just := []byte{0xaa, byte(e.B)}
 						bd.Justification = &just
-						counts["entries-with-justification"]++
+						counts["entries-with-verifying-justification"]++
 					}
 					delivered = append(delivered, e.B)
 					data = append(data, bd)
@@ -266,8 +292,17 @@ scenarios:
 				write(vfsEvent{Ev: "return", Sc: bi, Res: "error"})
 				continue scenarios
 			case pm != "":
-				write(vfsEvent{Ev: "return", Sc: bi, Res: "panic"})
+				why := "other"
+				if strings.Contains(pm, "issues/3066") {
+					// BlockState.GetRuntime panics when asked for a block that is not in the block tree (finalised chain below
+					// the root, or a pruned fork): the importer asks for the PARENT's runtime
+					why = "runtime-of-block-outside-the-tree"
+				}
+				write(vfsEvent{Ev: "return", Sc: bi, Res: "panic", Why: why})
 				counts["return-panic"]++
+				if _, seen := res.Extra["first_panic"]; !seen {
+					res.Extra["first_panic"] = pm
+				}
 			case perr != nil:
 				write(vfsEvent{Ev: "return", Sc: bi, Res: "error"})
 				counts["return-error"]++
